@@ -86,6 +86,10 @@ func (p *Pair) Model(op Op, timeout time.Duration) Result {
 			for i := 0; i < 6; i++ {
 				args[i] = []byte{}
 			}
+		case "alias":
+			for i := 0; i < 3; i++ {
+				args[i+3] = args[i]
+			}
 		}
 		op = Op{"gen.run", args}
 	}
